@@ -11,7 +11,8 @@ dumps of the same compilation, plus the fragment predicate of `pipeline_preserve
 
 Input line: `id<TAB>(prog core)<TAB>(genv (enums …) (structs …))<TAB>(prog mono)<TAB>(prog lift)<TAB>(prog anf)`
 `[<TAB>(env …)<TAB>(afile …)<TAB>(gofile …)]` (the last three: `GlobalGoEnv` dump, real annotated ANF, real Go AST; then four
-more output columns `annot=…`, `go=…`, `E2E-IN|E2E-OUT`, reasons — the back half, `Pipeline.backStages`).
+more output columns `annot=…`, `go=…`, `E2E-IN|E2E-OUT`, reasons, `dce=OK|NO` (`Dce.fileDceOK` of the compiled file),
+`EMIT-IN|EMIT-OUT` (`inEmitFragment`), DCE reasons — the back half, `Pipeline.backStages`).
 Output: `id<TAB>EQ|EQT|DIFF|UNSUPPORTED<TAB>first differing stage + detail<TAB>IN|IN-FROM-MONO|OUT<TAB>reasons<TAB>stats`
 (`IN` = `InPipeFragment`, `IN-FROM-MONO` = only `InLiftAnfFragment`, the fragment of `pipeline_preserves_partial`).
 
@@ -135,7 +136,7 @@ def backCols (i : PipeIn) (goenvS aanfS goS : String) : String :=
   | some env, some realA, some realGo =>
     let e : E2EIn := { pipe := i, goenv := env }
     match backStages e with
-    | none => "annot=UNSUPPORTED\tgo=UNSUPPORTED\tE2E-OUT\tgo:anf-not-annotatable"
+    | none => "annot=UNSUPPORTED\tgo=UNSUPPORTED\tE2E-OUT\tgo:anf-not-annotatable\tdce=NO\tEMIT-OUT\t"
     | some b =>
       let va := cmpAFile b.afile realA
       let vg :=
@@ -151,8 +152,12 @@ def backCols (i : PipeIn) (goenvS aanfS goS : String) : String :=
           else "DIFF:" ++ C09.clean d
       let inE := inE2EFragment e
       let rs := if inE then [] else (if inPipeFragment i then [] else ["middle-end"]) ++ goReasons e
-      s!"annot={va}\tgo={vg}\t{if inE then "E2E-IN" else "E2E-OUT"}\t{"; ".intercalate (rs.map C09.clean)}"
-  | a, b, c => s!"annot=decode-error env={a.isSome} aanf={b.isSome} go={c.isSome}\tgo=decode-error\tE2E-OUT\t"
+      -- the DCE contract of the compiled file, and the fragment of `core_to_emitted_go_preserves`
+      let dceOk := fragDce b
+      let drs := if dceOk then [] else dceReasons e
+      let emit := if inE && dceOk then "EMIT-IN" else "EMIT-OUT"
+      s!"annot={va}\tgo={vg}\t{if inE then "E2E-IN" else "E2E-OUT"}\t{"; ".intercalate (rs.map C09.clean)}\tdce={if dceOk then "OK" else "NO"}\t{emit}\t{"; ".intercalate (drs.map C09.clean)}"
+  | a, b, c => s!"annot=decode-error env={a.isSome} aanf={b.isSome} go={c.isSome}\tgo=decode-error\tE2E-OUT\t\tdce=NO\tEMIT-OUT\t"
 
 def runLine (l : String) : String :=
   match l.splitOn "\t" with
